@@ -150,6 +150,61 @@ struct ShadowObs {
     paths: Vec<(&'static str, Option<Typed>)>,
 }
 
+/// What the emitter sees of a WIDE event (33..100 properties over call site, base props and
+/// ambient frames, unsorted keys, shadowed keys) through the de-duplicating views.
+#[derive(Clone, Debug, Default)]
+struct WideObs {
+    total: usize,
+    /// first occurrence of every key in plain enumeration order: key -> `{:?}` of the value
+    first: Vec<(String, String)>,
+    /// `props().dedup()` on the concrete event and on its erased form: (key, `{:?}`) as enumerated
+    dedup_concrete: Vec<(String, String)>,
+    dedup_erased: Vec<(String, String)>,
+    /// typed reads of `val`: first occurrence in enumeration, through both dedup views, and `get`
+    val_first: Option<Typed>,
+    val_dedup_concrete: Option<Typed>,
+    val_dedup_erased: Option<Typed>,
+    val_get: Option<Typed>,
+}
+
+fn observe_wide<P: Props>(evt: &emit::Event<P>) -> WideObs {
+    let mut o = WideObs::default();
+    let _ = evt.props().for_each(|k, v| {
+        o.total += 1;
+        if !o.first.iter().any(|(k2, _)| k2 == k.get()) {
+            if k == "val" {
+                o.val_first = Some(typed_of_value(&v));
+            }
+            o.first.push((k.get().to_string(), format!("{:?}", v)));
+        }
+        std::ops::ControlFlow::Continue(())
+    });
+    let _ = evt.props().dedup().for_each(|k, v| {
+        if k == "val" {
+            o.val_dedup_concrete = Some(typed_of_value(&v));
+        }
+        o.dedup_concrete.push((k.get().to_string(), format!("{:?}", v)));
+        std::ops::ControlFlow::Continue(())
+    });
+    let erased = evt.erase();
+    let _ = erased.props().dedup().for_each(|k, v| {
+        if k == "val" {
+            o.val_dedup_erased = Some(typed_of_value(&v));
+        }
+        o.dedup_erased.push((k.get().to_string(), format!("{:?}", v)));
+        std::ops::ControlFlow::Continue(())
+    });
+    o.val_get = evt.props().get("val").map(|v| typed_of_value(&v));
+    o
+}
+
+/// The lower-precedence sets of a wide event: base `props:` and three ambient frames (outermost first).
+struct WidePlan {
+    class: &'static str,
+    base: Vec<(String, ShadowVal)>,
+    frames: [Vec<(String, ShadowVal)>; 3],
+}
+
 /// A value of another primitive type that shadows `val` from base props / the ambient context.
 #[derive(Clone, Copy, Debug, PartialEq)]
 enum ShadowVal {
@@ -372,11 +427,15 @@ impl Emitter for GlobalObsEmitter {
 }
 
 #[derive(Clone, Default)]
-struct ObsEmitter(Arc<Mutex<Vec<Option<Obs>>>>, Arc<Mutex<Vec<ShadowObs>>>, Arc<std::sync::atomic::AtomicBool>);
+struct ObsEmitter(Arc<Mutex<Vec<Option<Obs>>>>, Arc<Mutex<Vec<ShadowObs>>>, Arc<std::sync::atomic::AtomicBool>, Arc<Mutex<Vec<WideObs>>>, Arc<std::sync::atomic::AtomicBool>);
 
 impl Emitter for ObsEmitter {
     fn emit<E: emit::event::ToEvent>(&self, evt: E) {
         let evt = evt.to_event();
+        if self.4.load(std::sync::atomic::Ordering::SeqCst) {
+            self.3.lock().unwrap().push(observe_wide(&evt));
+            return;
+        }
         if self.2.load(std::sync::atomic::Ordering::SeqCst) {
             // typed reads of a shadowed key: on the concrete event this (typed) emitter is handed,
             // on its erased form, and on owned copies of the value
@@ -778,6 +837,126 @@ impl<'a> Driver<'a> {
         &self.rt
     }
 
+    /// The lower-precedence sets of this case's wide event. Sizes straddle std's small-collection
+    /// thresholds: 20..24, 32..40 and 64..100 properties in total.
+    fn wide_plan(&self) -> WidePlan {
+        let mut g = Rng::stream(self.variant, &[19, 7, self.site.len() as u64]);
+        let (class, total) = match self.variant % 3 {
+            0 => ("20-24", 20 + g.usize(5)),
+            1 => ("32-40", 32 + g.usize(9)),
+            _ => ("64+", 64 + g.usize(37)),
+        };
+        let kind = model_kind(self.model);
+        let other = |g: &mut Rng, not: &str| loop {
+            let s = *g.pick(SHADOWS);
+            if s.kind() != not {
+                break s;
+            }
+        };
+        let prefixes = ["k", "a", "zz", "m_", "Val", "val_", "va", "vam", "é", "_"];
+        let mut plan = WidePlan { class, base: Vec::new(), frames: [Vec::new(), Vec::new(), Vec::new()] };
+        // `val` itself is shadowed in the base props and in two frames, the call site's other keys too
+        plan.base.push(("zz_last".into(), ShadowVal::Str("shadow")));
+        plan.frames[0].push(("val".into(), other(&mut g, kind)));
+        plan.frames[2].push(("aa_first".into(), ShadowVal::Bool(false)));
+        plan.frames[2].push(("val".into(), other(&mut g, kind)));
+        let mut j = 0usize;
+        let mut val_in_base = false;
+        // 4 call-site properties (n, val, zz_last, aa_first) count towards the total
+        while 4 + plan.base.len() + plan.frames.iter().map(|f| f.len()).sum::<usize>() < total {
+            j += 1;
+            let fresh = format!("{}{}", g.pick(&prefixes), (j * 7919) % 1000);
+            if g.bool() {
+                if !val_in_base && plan.base.len() >= 3 {
+                    // not the first base property: sorted-position and enumeration order differ
+                    plan.base.push(("val".into(), other(&mut g, kind)));
+                    val_in_base = true;
+                } else {
+                    plan.base.push((fresh, *g.pick(SHADOWS)));
+                }
+            } else {
+                let fi = g.usize(3);
+                // an ambient key is often one the base props hold too, with another type
+                let key = if g.chance(1, 3) && !plan.base.is_empty() { g.pick(&plan.base).0.clone() } else { fresh };
+                if key == "val" || plan.frames[fi].iter().any(|(k, _)| *k == key) {
+                    continue;
+                }
+                let base_kind = plan.base.iter().find(|(k, _)| *k == key).map(|(_, v)| v.kind()).unwrap_or("none");
+                plan.frames[fi].push((key, other(&mut g, base_kind)));
+            }
+        }
+        plan
+    }
+
+    fn wide_mode(&self, on: bool) {
+        self.emitter.4.store(on, std::sync::atomic::Ordering::SeqCst);
+    }
+
+    /// After the wide emission: every de-duplicating view shows each key once with the FIRST value of
+    /// the enumeration order, and `val` is the call-site value with its type.
+    fn emitted_wide(&mut self, class: &str) {
+        self.wide_mode(false);
+        let seen: Vec<WideObs> = std::mem::take(&mut *self.emitter.3.lock().unwrap());
+        self.r.observe(&format!("path:wide:{}", class), seen.len() as u64);
+        if seen.len() != 1 {
+            self.violation("wide", "not-emitted", format!("emit! reached the emitter {} times", seen.len()));
+            return;
+        }
+        let o = &seen[0];
+        self.r.observe("wide:properties-enumerated", o.total as u64);
+        self.r.observe("wide:distinct-keys", o.first.len() as u64);
+        let mut case = self.case.clone();
+        case["wide"] = json!({"class": class, "enumerated": o.total, "distinct_keys": o.first.len()});
+        for (path, dedup) in [("dedup-concrete", &o.dedup_concrete), ("dedup-erased", &o.dedup_erased)] {
+            self.r.observe("check:wide-dedup-views", 1);
+            for (i, (k, _)) in dedup.iter().enumerate() {
+                if dedup[..i].iter().any(|(k2, _)| k2 == k) {
+                    self.r.violation(&format!("C19:wide:{}:{}:key-repeated", path, class), &format!("site {}: {} of a {}-property event enumerates key {:?} more than once", self.site, path, o.total, k), case.clone());
+                    break;
+                }
+            }
+            for (k, first) in &o.first {
+                match dedup.iter().find(|(k2, _)| k2 == k) {
+                    None => {
+                        self.r.violation(&format!("C19:wide:{}:{}:key-lost", path, class), &format!("site {}: {} of a {}-property event lost key {:?}", self.site, path, o.total, k), case.clone());
+                        break;
+                    }
+                    Some((_, got)) if got != first => {
+                        self.r.violation(
+                            &format!("C19:wide:{}:{}:not-the-first-value", path, class),
+                            &format!("site {}: {} of a {}-property event shows {:?} = {}, the first value in enumeration order is {}", self.site, path, o.total, k, clip(got), clip(first)),
+                            case.clone(),
+                        );
+                        break;
+                    }
+                    _ => {}
+                }
+            }
+            if let Some((k, _)) = dedup.iter().find(|(k, _)| !o.first.iter().any(|(k2, _)| k2 == k)) {
+                self.r.violation(&format!("C19:wide:{}:{}:key-invented", path, class), &format!("site {}: {} shows key {:?} the event does not enumerate", self.site, path, k), case.clone());
+            }
+        }
+        // `val`: the call-site value with its type, never a shadowing one
+        let reference = match self.reference.clone() {
+            Some(r) => r,
+            None => return,
+        };
+        let none = Typed::default();
+        for (path, typed) in [("first-enumerated", &o.val_first), ("dedup-concrete", &o.val_dedup_concrete), ("dedup-erased", &o.val_dedup_erased), ("get", &o.val_get)] {
+            self.r.observe("check:wide-val-typed-reads", 1);
+            let got = typed.clone().unwrap_or_default();
+            let want = if self.exp.present { reference.clone().unwrap_or_default() } else { o.val_get.clone().unwrap_or_default() };
+            let _ = &none;
+            if let Some((t, why)) = typed_diff(&got, &want, true) {
+                self.r.violation(
+                    &format!("C19:wide:{}:{}:val:{}:{}", path, class, t, if self.exp.present { "differs-from-unshadowed" } else { "paths-disagree" }),
+                    &format!("site {}: in a {}-property event with `val` shadowed three times, {}::<{}> = {}", self.site, o.total, path, t, why),
+                    case.clone(),
+                );
+            }
+        }
+    }
+
     /// Two values of primitive types other than the captured one: for base props and the ambient frame.
     fn shadows(&self) -> (ShadowVal, ShadowVal) {
         let kind = model_kind(self.model);
@@ -1055,6 +1234,25 @@ macro_rules! sites {
                         }
                     };
                     d.emitted_shadowed(form);
+                }
+                // a WIDE event: many properties over call site, base props and three ambient frames,
+                // unsorted keys, `val` shadowed in three lower-precedence sets
+                if d.variant % 2 == 0 {
+                    let plan = d.wide_plan();
+                    let base: Vec<(&str, Value)> = plan.base.iter().map(|(k, v)| (k.as_str(), v.value())).collect();
+                    let fr: Vec<Vec<(&str, Value)>> = plan.frames.iter().map(|f| f.iter().map(|(k, v)| (k.as_str(), v.value())).collect()).collect();
+                    {
+                        let rt = d.runtime();
+                        d.wide_mode(true);
+                        let mut f0 = emit::Frame::push(rt.ctxt(), &fr[0][..]);
+                        let _g0 = f0.enter();
+                        let mut f1 = emit::Frame::push(rt.ctxt(), &fr[1][..]);
+                        let _g1 = f1.enter();
+                        let mut f2 = emit::Frame::push(rt.ctxt(), &fr[2][..]);
+                        let _g2 = f2.enter();
+                        emit::emit!(rt, props: &base[..], "site wide {n}", n: 8, zz_last: 1, $($attr)* val: $vexpr, aa_first: 2);
+                    }
+                    d.emitted_wide(plan.class);
                 }
                 // span arguments
                 {
